@@ -30,6 +30,8 @@ var Decls = []string{
 	"decl m00 (st int string)", // 2 St
 	"decl - (sl int)",          // 3 NSl
 	"decl - bool",              // 4 NB
+	"decl - iface",             // 5 Shape
+	"decl - (p u8)",            // 6 UP (unsafe.Pointer is modelled as a pointer: nil is its zero)
 }
 
 var Types = []T{
@@ -51,6 +53,9 @@ var Types = []T{
 	{15, "uint8", "u8", "basic", true, false},
 	// a type whose Go spelling contains a per cent sign (struct tag): printed types must never end up in a format string
 	{16, "struct{ A int \"cell:\\\"%5d\\\"\" }", "(st int)", "struct", false, false},
+	{17, "Shape", "(n 5)", "interface", true, false},
+	{18, "UnsafeP", "(p u8)", "unsafe-pointer", true, false},
+	{19, "UP", "(n 6)", "unsafe-pointer", true, false},
 }
 
 // ErrT is a type used where an `error` is expected.
@@ -78,6 +83,25 @@ var ErrTypes = map[string]ErrT{
 
 // ErrNames lists the keys of ErrTypes in a fixed order.
 var ErrNames = []string{"errs", "errv", "errp", "perrp", "miss1", "miss2", "miss3", "miss4", "miss5"}
+
+// Geo is the text of the package corpus/geo: named types that the generated packages only mention in
+// argument EXPRESSIONS, never in a signature.
+const Geo = `// Package geo holds named types that derive calls are given values of.
+package geo
+
+type Square struct{ N int }
+
+func (s Square) Area() int { return s.N }
+
+type Dur int64
+
+func (d Dur) Area() int { return int(d) }
+
+type Err struct{ Code int }
+
+func (e Err) Error() string { return "geo" }
+func (e Err) ErrCode() int  { return e.Code }
+`
 
 // OKTypes are the ids for which the printed zero value is well typed today.
 func OKTypes() []int {
@@ -109,7 +133,9 @@ func Common(pkg string) string {
 
 const commonBody = `
 
-// No imports on purpose: goderive type-checks the imports of a package from source on every run.
+// No imports that cost anything: goderive type-checks the imports of a package from source on every run.
+
+import "unsafe"
 
 type NI int
 type NS string
@@ -119,6 +145,19 @@ type St struct {
 }
 type NSl []int
 type NB bool
+
+// Shape is a local interface type; values of imported types are bound to parameters of this type.
+type Shape interface{ Area() int }
+
+type sq int
+
+func (s sq) Area() int { return int(s) }
+
+// UnsafeP is unsafe.Pointer itself (an alias, so that the files of the package need not import unsafe).
+type UnsafeP = unsafe.Pointer
+
+// UP is a named type over unsafe.Pointer.
+type UP unsafe.Pointer
 
 // Custom error types and near-misses (derive.IsError looks for a NAMED type with a method Error() string).
 type ErrS []string // nil-able, value receiver: implements error
@@ -264,6 +303,8 @@ func showErr(e error) string {
 			return "typednil"
 		}
 		return "9." + itoa(x.Code)
+	case interface{ ErrCode() int }:
+		return "9." + itoa(x.ErrCode()) // an error value of an imported type
 	}
 	for k, v := range errTab {
 		if v == e {
@@ -381,6 +422,9 @@ func ob11(v interface{}) int {
 	if v == nil {
 		return 0
 	}
+	if s, ok := v.(interface{ Area() int }); ok && s.Area() != 0 {
+		return s.Area() // a value of some (possibly imported) named type
+	}
 	n, ok := v.(int)
 	if !ok || n == 0 {
 		return -1
@@ -395,6 +439,39 @@ func mk14(n int) NB              { return NB(n != 0) }
 func ob14(v NB) int              { return ob2(bool(v)) }
 func mk15(n int) uint8           { return uint8(n) }
 func ob15(v uint8) int           { return int(v) }
+func mk17(n int) Shape {
+	if n == 0 {
+		return nil
+	}
+	return sq(n)
+}
+func ob17(v Shape) int {
+	if v == nil {
+		return 0
+	}
+	if v.Area() == 0 {
+		return -1
+	}
+	return v.Area()
+}
+func mk18(n int) unsafe.Pointer {
+	if n == 0 {
+		return nil
+	}
+	x := n
+	return unsafe.Pointer(&x)
+}
+func ob18(v unsafe.Pointer) int {
+	if v == nil {
+		return 0
+	}
+	if *(*int)(v) == 0 {
+		return -1
+	}
+	return *(*int)(v)
+}
+func mk19(n int) UP { return UP(mk18(n)) }
+func ob19(v UP) int { return ob18(unsafe.Pointer(v)) }
 func mk16(n int) struct {
 	A int "cell:\"%5d\""
 } {
